@@ -242,6 +242,13 @@ package scheduler
 //@   props C01 C02 C06
 //@   ensures held-by-exactly-this-worker: w.currentTask == t && t.currentWorker == w
 //@   ensures every-assignment-starts-with-a-fresh-redelivery-budget: t.retryCount == 0
+//@   loop 1 invariant stickinessRetained <= i && w == old(w) && bq == old(bq) &&
+//@             (forall j int :: stickinessRetained <= j && j < i && j < len(w.stickinessStartingTimes) ==> w.stickinessStartingTimes[j] == bq.now) &&
+//@             (forall j int :: 0 <= j && j < stickinessRetained && j < len(w.stickinessStartingTimes) ==> w.stickinessStartingTimes[j] == old(w.stickinessStartingTimes[j]))
+//@   ensures the-stickiness-windows-of-the-levels-that-changed-restart-now:
+//@             forall j int :: stickinessRetained <= j && j < len(w.stickinessStartingTimes) && 0 <= stickinessRetained ==> w.stickinessStartingTimes[j] == bq.now
+//@   ensures the-stickiness-windows-of-the-retained-levels-keep-running:
+//@             forall j int :: 0 <= j && j < stickinessRetained && j < len(w.stickinessStartingTimes) ==> w.stickinessStartingTimes[j] == old(w.stickinessStartingTimes[j])
 // An invocation stays in its parent's heap of queued children exactly as long
 // as something is still queued in it or below it.
 //@ func (*operation).removeQueuedFromInvocation
@@ -268,7 +275,8 @@ package scheduler
 //@ ghost map execdec(ref) int zero
 //@ ghost map wakeupseen(ref) int zero
 //@ func (*invocation).decrementExecutingWorkersCount
-//@   props C04
+//@   props C04 C06
+//@   loop 0 exit the-walk-only-ends-at-the-root: i.parent == nil
 //@   ghostset execdec[i] = old(execdec(i)) + 1
 //@   at call heapMaybeFix#1 assert every-invocation-on-the-way-up-is-stamped-before-it-is-re-sorted-in-its-parent:
 //@             i.lastOperationCompletion == bq.now && arg0 == &i.parent.queuedChildren && arg1 == i.queuedChildrenIndex
@@ -280,6 +288,7 @@ package scheduler
 // decided by the time each of them was last served.
 //@ func (*invocation).incrementExecutingWorkersCount
 //@   props C04
+//@   loop 0 exit the-walk-only-ends-at-the-root: i.parent == nil
 //@   at call heapMaybeFix#1 assert every-invocation-on-the-way-up-is-stamped-before-it-is-re-sorted-in-its-parent:
 //@             i.lastOperationStarted == bq.now && arg0 == &i.parent.queuedChildren && arg1 == i.queuedChildrenIndex
 //@   at call heapMaybeFix#2 assert re-sorted-among-the-invocations-with-waiting-workers-as-well:
@@ -440,6 +449,7 @@ package scheduler
 // so that they stop picking up work at once (C05).
 //@ func (*InMemoryBuildQueue).AddDrain$1
 //@   props C05
+//@   loop 0 exhaustive
 //@   at call wakeUp#1 assert only-workers-parked-in-synchronize-are-woken: w.wakeup != nil && arg1 == scq
 //@   ensures the-drain-is-registered: drainKey in scq.drains
 
@@ -479,3 +489,11 @@ package scheduler
 //@ func (*operation).maybeStartCleanup
 //@   props C03 C06 C02
 //@   at call add#1 assert armed-only-for-an-operation-nobody-waits-on: o.waiters == 0 && !o.mayExistWithoutWaiters && arg1 == &o.cleanupKey
+
+// The score that orders sibling invocations is computed in floating point; the
+// integer inputs are converted first, so no integer subtraction of priorities
+// can wrap around (C04: extreme priorities still order correctly).
+//@ func (*invocation).isPreferred
+//@   props C04
+//@   assume len(i.executingWorkers) < MaxInt64 && len(j.executingWorkers) < MaxInt64 -- a map cannot hold 2^63 entries
+//@   safety nowrap
